@@ -15,7 +15,7 @@
 From Coq Require Import Sorting.Permutation.
 From GoCar Require Import Bytes Varint Cid Header Frame V2Header Scan Index Store Traversal ExtractFs CliCmds.
 From GoCarProofs Require Import StoreInv CliBase CliWalk CliProducers CliConcat CliFilter CliClosure CliTheorems CliGet CliAppend CliIndexFacts CliFull CliCidList CliGetDag CliPipe CliExamples.
-From GoCarProofs Require FinalIndex.
+From GoCarProofs Require FinalIndex ScanTrunc.
 
 (* ---- car list / car root ------------------------------------------------------------------------------ *)
 Theorem C19_list :
@@ -792,6 +792,20 @@ Theorem C19_list_stdin_unfixed_refuted :
     list_car_stdin false hok hdrdec file = (false, []) /\ root_car_stdin false hdrdec file = (false, []).
 Proof. exact list_stdin_v2_refused. Qed.
 Print Assumptions C19_list_stdin_unfixed_refuted.
+
+(* car list verifies what it lists: a section whose bytes do not hash to its CID ends the listing with
+   an error after the CIDs in front of it -- an archive that `car list` lists to the end is one whose
+   blocks the BlockReader accepted *)
+Theorem C19_list_rejects_corrupt_block :
+  forall hok hdrdec, hdrdec pragma_body = Some ([], 2) ->
+  forall hb roots pre c d rest,
+    hdr_ok hdrdec hb roots -> blocks_ok pre -> hashes_ok hok pre ->
+    blk_ok default_maxs (c, d) -> ScanTrunc.hash_bad hok (c, d) ->
+    let file := ld hb ++ enc_sections pre ++ enc_section c d ++ rest in
+    list_car hok hdrdec file = (false, map fst pre) /\
+    list_car_stdin true hok hdrdec file = (false, map fst pre).
+Proof. exact list_car_corrupt. Qed.
+Print Assumptions C19_list_rejects_corrupt_block.
 
 (* ---- car debug | car compile ------------------------------------------------------------------------------- *)
 (* compile writes the distinct blocks in the iteration order of a Go map: the statement is over EVERY
